@@ -80,6 +80,10 @@ def fixed_cases():
     yield {'ops': [['regp', ['U', 'C']], ['regp', ['C']], ['print', 'C'], ['regn', 'B2'], ['print', 'D'], ['isreg', 'U', False, False, True]]}
     yield {'ops': [['regp', ['U']], ['regps', ['C']], ['print', 'C'], ['print', 'U'], ['regps', ['A']], ['print', 'A'], ['print', 'B']]}
     yield {'ops': [['regp', ['U', 'C']], ['regpp'], ['print', 'U'], ['regpp'], ['print', 'C']]}
+    # by-name registrations come and go between two prints of a class (their number is the same again)
+    for x, y in (('A', 'B'), ('B', 'A'), ('C', 'U'), ('A', 'E'), ('E', 'F')):
+        yield {'ops': [['regn', y], ['print', x], ['print', y], ['regn', x], ['print', x], ['print', y], ['isreg', x, True, True, False]]}
+        yield {'ops': [['regn', y], ['regn', 'D'], ['print', x], ['regc', y], ['regn', x], ['print', x], ['regn', y], ['print', y], ['print', x]]}
     # overlapping predicates: a value only the later one accepts is printed before a value both accept
     names = ['A', 'B', 'C', 'B2', 'D', 'U', 'E', 'F']
     for only_later in names:
